@@ -227,4 +227,4 @@ def replay_finding(ctx, f):
     rep = Report()
     sspec, tspec, excluded, exists, parallel = from_json(f['replay'])
     check_settings(ctx, rep, sspec, tspec, excluded, exists, parallel)
-    return any(d['kind'] == f['kind'] for d in rep.disagreements)
+    return any(d['kind'] in f.get('kinds', [f.get('kind')]) for d in rep.disagreements)
